@@ -1,4 +1,18 @@
+mod child;
+mod extdata;
+mod pb;
+mod proto;
+
 fn main() {
-    eprintln!("usage: vh-load <subcommand> [options]");
-    std::process::exit(2);
+    let cmd = std::env::args().nth(1).unwrap_or_default();
+    match cmd.as_str() {
+        "proto" => proto::main_proto(),
+        "proto-batch" => proto::main_batch_child(),
+        "extdata" => extdata::main_extdata(),
+        "extdata-batch" => extdata::main_batch_child(),
+        _ => {
+            eprintln!("usage: vh-load <proto|extdata|fuzz> [options]");
+            std::process::exit(2);
+        }
+    }
 }
